@@ -107,7 +107,7 @@ static std::string run_one(const Bytes &file, const Bytes &good, size_t flip_off
 }
 
 static void prop(Ctx &c) {
-    gen::ZFileOpts o; o.force_comp = ZCK_COMP_ZSTD; o.max_chunks = 6; o.max_chunk = c.tier ? 900 : 300; o.allow_dups = false; o.allow_empty = false; o.allow_uncomp = true;
+    gen::ZFileOpts o; o.force_comp = ZCK_COMP_ZSTD; o.max_chunks = 6; o.max_chunk = c.tier ? 900 : 300; o.allow_dups = false; o.allow_empty = false; o.allow_uncomp = true; o.allow_empty_stored = false;    // a chunk without data has nothing to release
     // an eighth of the cases: one chunk larger than the library's 32 KiB buffers or than zstd's 128 KiB block (flips sampled, not enumerated)
     bool large = c.gver >= 2 && c.rarely(8); if (large) { o.big_rate = 1; o.big_huge = true; o.max_chunks = 3; }
     gen::ZFile z = gen::zfile(c, o);
